@@ -15,6 +15,18 @@ static int A_[3][NX], C_[3]; static bool SG[3]; static int COL[3]; static int W[
 static bool bad_use;
 static bool word_int(Real const & r, int & out) { auto nd = r.tryGetNumDen(); if (!nd || nd->second != 1) return false; out = nd->first; return true; }
 
+// ---- FR-ADT: FastRational arithmetic by its exact specification on small integers (the implementation itself is C15's subject)
+static bool fr_bad;
+static int fr_int(FastRational const * a) {
+    int v = 0; bool ok = a->state == State::WORD_VALID && word_int(*a, v) && v >= -200 && v <= 200;
+    if (!ok) { fr_bad = true; return 0; }
+    return v;
+}
+static void fr_set(FastRational * d, int v) { if (d->state != State::WORD_VALID) fr_bad = true; d->num = v; d->den = 1; }
+extern "C" void stub_fr_multiplication(FastRational * dst, FastRational const * a, FastRational const * b) { fr_set(dst, fr_int(a) * fr_int(b)); }
+extern "C" void stub_fr_additionAssign(FastRational * a, FastRational const * b) { fr_set(a, fr_int(a) + fr_int(b)); }
+extern "C" void stub_fr_neg(FastRational * out, FastRational const * a) { out->state = State::WORD_VALID; out->num = -fr_int(a); out->den = 1; out->mpq = nullptr; }
+
 extern "C" icolor_t stub_getColorFor(FarkasInterpolator const *, PTRef t) {
     if (t.x < 10 || t.x > 12) { bad_use = true; return icolor_t::I_A; }
     return static_cast<icolor_t>(COL[t.x - 10]);
@@ -59,12 +71,14 @@ static bool eval_itp(PTRef r, int x1, int x2) {
 union FSlot { FarkasInterpolator f; FSlot() {} ~FSlot() {} };
 static unsigned char fake_logic[8];
 
+static mpq_t keep_mpq_type;   // rt/gmp_model.c needs the GMP struct types in the module
 template <int N, bool DUAL> static void farkas() {
-    bad_use = false; q_calls = 0; q_ok = true; q_c = 0; q_a[0] = q_a[1] = 0;
+    mpq_init(keep_mpq_type);
+    bad_use = false; fr_bad = false; q_calls = 0; q_ok = true; q_c = 0; q_a[0] = q_a[1] = 0;
     bool anyA = false, anyB = false;
     for (int i = 0; i < N; i++) {
-        for (int j = 0; j < NX; j++) { A_[i][j] = (int8_t)nondet_u8(); VASSUME(A_[i][j] >= -2 && A_[i][j] <= 2); }
-        C_[i] = (int8_t)nondet_u8(); VASSUME(C_[i] >= -3 && C_[i] <= 3);
+        for (int j = 0; j < NX; j++) { A_[i][j] = (int8_t)nondet_u8(); VASSUME(A_[i][j] >= -2 && A_[i][j] <= 2 && A_[i][j] != 0); }   // non-zero: concrete polynomial shapes (symbolic vector sizes explode)
+        C_[i] = (int8_t)nondet_u8(); VASSUME(C_[i] >= -3 && C_[i] <= 3 && C_[i] != 0);
         SG[i] = nondet_bool();
         COL[i] = nondet_u8(); VASSUME(COL[i] >= 1 && COL[i] <= 3);            // a, b or ab
         W[i] = nondet_u8(); VASSUME(W[i] >= 1 && W[i] <= 3);                  // Farkas coefficients are positive
@@ -88,6 +102,7 @@ template <int N, bool DUAL> static void farkas() {
     PTRef I = DUAL ? f->getDualFarkasInterpolant() : f->getFarkasInterpolant();
 
     VASSERT(!bad_use, "harness: stubs used with known arguments only");
+    VASSERT(!fr_bad, "FR-ADT: every arithmetic operation is on small integers in word form");
     VASSERT(q_calls <= 1 && q_ok, "the interpolant is one inequality over the known variables with non-zero integer coefficients");
     // pointwise at a symbolic point
     int x1 = (int8_t)nondet_u8(), x2 = (int8_t)nondet_u8(); VASSUME(x1 >= -4 && x1 <= 4 && x2 >= -4 && x2 <= 4);
